@@ -65,7 +65,7 @@ type Case struct {
 
 func setup() {
 	c := ev.C()
-	c.Rule = "a scripted exchange (handshake + NReq requests answered in order) with one stream fault: injected at every message index on the send side (the At-th Send fails; or stalls under flow control and then fails) and on the receive side (after At responses), for each status class {EOF, Unavailable, Internal, Canceled}, while the application queues a burst of 0..12 further requests (after the fault, or from another goroutine so that the stream breaks while the burst is in progress), with 0-2 application goroutines already inside AwaitConverged when the fault happens, followed by Close, or by Reset + ReplaceStub + Connect + a further exchange. The full product over small parameters is enumerated (quick: NReq<=3, burst in {0,1,6,12}; thorough: NReq<=6, burst 0..12) plus rapid-drawn cases. Oracle: Done() fires; every Q call returns; the error is recorded in Status(); AwaitConverged returns a *ClientErr (never nil, never only the context error) within the watchdog, and so does every call that was already waiting; Close/Reset return; no goroutine with gribigo/client frames is left (goroutine dump census); after Reset+Connect the client has no pending operations, results or errors, the new stream carries exactly the messages of a fresh client (parameters, election id, the new request) and a new exchange converges. A clean EOF on the receive side is not an error: then only termination, Q, Close/Reset and the census are asserted, and AwaitConverged must not report convergence while operations are unanswered. Non-trivial = burst >= 1 at the time of the fault, or fault index > 0; distinct by FNV-64 of the case JSON."
+	c.Rule = "a scripted exchange (handshake + NReq requests answered in order) with one stream fault: injected at every message index on the send side (the At-th Send fails; or stalls under flow control and then fails) and on the receive side (after At responses), for each status class {EOF, Unavailable, Internal, Canceled}, while the application queues a burst of 0..12 further requests (after the fault, or from another goroutine so that the stream breaks while the burst is in progress), with 0-2 application goroutines already inside AwaitConverged when the fault happens, followed by Close, or by Reset + ReplaceStub + Connect + a further exchange. The full product over small parameters is enumerated (quick: NReq<=3, burst in {0,1,6,12}; thorough: NReq<=6, burst 0..12) plus rapid-drawn cases. Oracle: Done() fires; every Q call returns; the error is recorded in Status(); AwaitConverged returns a *ClientErr (never nil, never only the context error) within the watchdog, and so does every call that was already waiting; Close/Reset return; no goroutine with gribigo/client frames is left (goroutine dump census); after Reset+Connect the client has no pending operations, results or errors, the new stream carries exactly the messages of a fresh client (parameters, election id, the new request) and a new exchange converges. A clean EOF on the receive side is not an error: then only termination, Q, Close/Reset and the census are asserted, and AwaitConverged must not report convergence while operations are unanswered. Non-trivial = burst >= 1 at the time of the fault, or fault index > 0; distinct by FNV-64 of the case JSON. Later additions: many-outstanding scope (requests of 255-8193 operations); linger scope (one case per shard: the re-connected session left alone 1-11 s, thorough 61 s)."
 	c.Assumptions = []string{"the stub obeys the gRPC client-stream contract: a failed Send returns io.EOF and the status is delivered by Recv; after CloseSend the server ends the stream with io.EOF"}
 }
 
